@@ -39,19 +39,20 @@ def generate(rng, tier, index):
     eps = float(rng.uniform(1.0, 4.0))
     cpw_medium = float(rng.uniform(15, 24))
     # variants of the uniform plane source (one run in four each): (g) a grid graded along the propagation axis around the
-    # source plane (geometric width ratio 2-8 % per cell, widths within 0.7-1.4 x nominal, >= 15 cells of the *widest* kind per
+    # source plane (geometric width ratio 3-15 % per cell, widths within 0.7-1.4 x nominal, >= 15 cells of the *widest* kind per
     # wavelength); (d) a homogeneous *dispersive* medium (one Lorentz pole above the carrier), resolution and run length
     # referred to the permittivity at the carrier frequency
     variant = specgen.choice(rng, ["plain", "plain", "graded", "dispersive"]) if kind == "uniform_plane" else "plain"
-    grade = float(rng.uniform(1.02, 1.08)) ** (1 if rng.uniform() < 0.5 else -1)
+    grade = float(rng.uniform(1.03, 1.15)) ** (1 if rng.uniform() < 0.5 else -1)
     # resonance at >= 2 x carrier and damped: measured <= 2e-5 on the unchanged tree. (A pulse whose spectrum reaches a resonance at
     # 1.6-1.7 x carrier sends 2-5e-4 backward, and an undamped pole keeps ringing at its own coarsely resolved resonance after
     # the CW turn-on, 3.4e-4 - both too close to the 1e-3 bound to be used.)
-    lor = {"w0_over_wc": float(rng.uniform(2.0, 3.0)), "gamma_over_w0": float(rng.uniform(0.005, 0.02)), "deps": float(rng.uniform(0.5, 2.0))}
+    lor = {"w0_over_wc": float(rng.uniform(2.0, 3.0)), "gamma_over_w0": float(rng.uniform(0.005, 0.02)), "deps": float(rng.uniform(1.5, 5.0))}
     eps_inf = eps
     if variant == "graded":
         cpw_medium = float(rng.uniform(21, 28))
     if variant == "dispersive":
+        eps_inf = float(1.0 + (eps - 1.0) / 3.0)  # eps_inf 1-2 with a strong pole: the carrier sees 2-4 x eps_inf
         x = lor["w0_over_wc"]
         chi = lor["deps"] * x * x / (x * x - 1.0 - 1j * lor["gamma_over_w0"] * x)
         eps = float(np.real(eps_inf + chi))  # permittivity seen by the carrier
